@@ -40,10 +40,11 @@ POLYS = [
 def model_check(ctx):
     W = 4
     ctx.mc("Shapes", "MC_Shapes_q.cfg" if ctx.quick else "MC_Shapes_t.cfg", workers=W,
-           label="lattices with widths {1,2,3} (quick: 5 x 2 x 1 width triples, thorough: 30 x 3 x 1), sub-boxes on x, ellipsoids/cylinders with radii 1..3 on the quarter grid, "
+           label="lattices with widths {1,2,3} (quick: 5 x 2 x 1 width triples, thorough: 30 x 3 x 1), sub-boxes on x, ellipsoids (default radius x every subset of per-axis radii given/omitted) and cylinders with radii 1..3 on the quarter grid, "
                  "8 polygons x 3 axes, shape centre on / a quarter unit off the box middle; Rasterise, Grow (monotone), Mirror (equivariant)")
     ctx.mc_negative("Shapes", "MC_Shapes_neg.cfg", workers=W)
     ctx.mc_negative("Shapes", "MC_Shapes_neg2.cfg", workers=W)
+    ctx.mc_negative("Shapes", "MC_Shapes_neg3.cfg", workers=W)
     ctx.assumptions += [
         "the analytic shape is the one the object defines: radii / vertices as passed to the constructor, centred in the middle of the object's PLACED box (how constraints snap that box to the grid is C26/C27/C37, not C43)",
         "lengths are integer multiples of D/4 with D = 2^-24 m, cell widths are D, 2D or 3D, so cell centres, shape centres, radii and vertices are exact in float64 and every non-boundary centre is separated from the surface by >= 1e-9 relative",
@@ -65,14 +66,29 @@ def _rand_poly(rng):
             return pts
 
 
+def _ell(rad, given):
+    """Sphere(radius=rad, radius_x/_y/_z=given[a] or omitted when 0); q = the radii by the documented rule (harness-side use
+    only: evidence statistics; TLC recomputes them from rad/given)."""
+    return {"kind": "ell", "rad": rad, "given": list(given), "q": [g or rad for g in given], "axis": 0, "poly": [], "len": 0}
+
+
+def _ell_q(q):
+    return _ell(q[0], [0, 0, 0]) if q[0] == q[1] == q[2] else _ell(q[0], [0, q[1], q[2]])
+
+
+SUBSETS = [(a, b, c) for a in (0, 1) for b in (0, 1) for c in (0, 1)]      # which of radius_x, radius_y, radius_z are given
+
+
+def _ell_subsets(rad, vals):
+    return [_ell(rad, [v if on else 0 for v, on in zip(vals, sub)]) for sub in SUBSETS]
+
+
 def _rand_obj(rng, kinds=("ell", "cyl", "poly")):
     k = rng.choice(kinds)
     if k == "ell":
-        if rng.random() < 0.3:
-            q = [rng.choice((4, 6, 8, 10, 12))] * 3
-        else:
-            q = [rng.choice((4, 5, 6, 7, 8, 10, 12, 14)) for _ in range(3)]
-        return {"kind": "ell", "q": q, "axis": 0, "poly": [], "len": 0}
+        rad = rng.choice((4, 5, 6, 8, 10, 12))
+        sub = rng.choice(SUBSETS)
+        return _ell(rad, [rng.choice([v for v in (4, 5, 6, 7, 8, 10, 12, 14) if v != rad]) if on else 0 for on in sub])
     if k == "cyl":
         return {"kind": "cyl", "q": [rng.choice((4, 5, 6, 7, 8, 9, 10, 12, 14))] * 3, "axis": rng.randrange(3), "poly": [], "len": rng.choice((1, 2, 3))}
     p = rng.choice(POLYS) if rng.random() < 0.5 else _rand_poly(rng)
@@ -88,11 +104,16 @@ def _widths(rng, n):
 def gen_cases(ctx):
     rng = random.Random(ctx.seed)
     ctx.exhaustive = False
-    nU, nR, nD = (4, 5, 60) if ctx.quick else (25, 30, 600)
+    nU, nR, nD = (3, 4, 60) if ctx.quick else (25, 30, 600)
     # U: uniform grid through place_objects; first scene = the catalogue polygons on all axes + round spheres
     objs = [{"kind": "poly", "q": [4, 4, 4], "axis": i % 3, "poly": p, "len": 1 + i % 2, "at": [i % 3, (i * 2) % 4, i % 2]} for i, p in enumerate(POLYS)]
-    objs += [{"kind": "ell", "q": [q, q, q], "axis": 0, "poly": [], "len": 0, "at": [1, 0, 1]} for q in (4, 5, 6, 8, 10, 12)]
+    objs += [{**_ell(q, [0, 0, 0]), "at": [1, 0, 1]} for q in (4, 5, 6, 8, 10, 12)]
     yield {"id": "U-cat", "fam": "U", "n": [12, 12, 10], "objs": objs}
+    # every subset of {radius_x, radius_y, radius_z} given / omitted, the given values all different from `radius`
+    opt = _ell_subsets(8, (12, 4, 6)) + _ell_subsets(6, (4, 10, 12))
+    yield {"id": "U-opt", "fam": "U", "n": [12, 12, 10], "objs": [{**o, "at": [i % 3, (i // 3) % 3, i % 2]} for i, o in enumerate(opt)]}
+    yield {"id": "R-opt", "fam": "R", "widths": [[1, 2, 1, 1, 3, 1, 2, 1, 1], [2, 1, 1, 2, 1, 1, 3, 1, 1], [1, 1, 2, 1, 2, 1, 1, 3, 1]],
+           "objs": [{**o, "at": [i % 3, (i // 3) % 3, i % 2]} for i, o in enumerate(opt)]}
     for s in range(nU - 1):
         objs = []
         for _ in range(9):
@@ -103,8 +124,8 @@ def gen_cases(ctx):
     # R: rectilinear grid through place_objects.  First scene: crafted so that a sphere r = 2D lands on cells of
     # width 2 (centres exactly on the surface along each axis) and a cylinder r = 1D on two cells of width 2.
     tie_w = [[1, 1, 2, 2, 2, 1, 1, 2]] * 3
-    objs = [{"kind": "ell", "q": [8, 8, 8], "axis": 0, "poly": [], "len": 0, "at": [2, 2, 2]},
-            {"kind": "ell", "q": [8, 4, 8], "axis": 0, "poly": [], "len": 0, "at": [2, 2, 2]},
+    objs = [{**_ell_q([8, 8, 8]), "at": [2, 2, 2]},
+            {**_ell_q([8, 4, 8]), "at": [2, 2, 2]},
             {"kind": "cyl", "q": [8, 8, 8], "axis": 1, "poly": [], "len": 2, "at": [2, 1, 2]},
             {"kind": "cyl", "q": [8, 8, 8], "axis": 2, "poly": [], "len": 1, "at": [2, 2, 0]},
             {"kind": "poly", "q": [4, 4, 4], "axis": 2, "poly": POLYS[2], "len": 2, "at": [2, 4, 0]}]
@@ -132,7 +153,12 @@ def gen_cases(ctx):
         ("DR", [[1, 2, 1, 3], [2, 2, 2, 1], [1, 1]], {"kind": "cyl", "q": [8, 8, 8], "axis": 2, "slice": [[0, 3], [0, 3], [0, 2]]}),
         ("DR", [[2, 1, 2], [1, 1, 1, 1, 1], [1]], {"kind": "cyl", "q": [10, 10, 10], "axis": 2, "slice": [[0, 3], [0, 5], [0, 1]]}),   # (1.5, 2) / 2.5
     ]
+    for i, sub in enumerate(_ell_subsets(8, (12, 4, 6))):
+        ties.append(("DL", None, {**sub, "slice": [[0, 6 if sub["q"][0] == 12 else 4], [1, 5], [0, 5]]}))
+        ties.append(("DR", [[1, 2, 1, 1, 2], [2, 1, 1, 2], [1, 1, 2, 1, 1]], {**sub, "slice": [[0, 5], [0, 4], [0, 5]]}))
     for i, (fam, widths, o) in enumerate(ties):
+        if o["kind"] == "ell" and "rad" not in o:
+            o = {**_ell_q(o["q"]), "slice": o["slice"]}
         o = {"axis": 0, "poly": [], "len": 0, **o}
         c = {"id": f"{fam}-tie{i}", "fam": fam, "objs": [o]}
         if widths:
@@ -165,10 +191,8 @@ def _build(o, name, fam):
     kw = dict(name=name, materials=mats, material_name="a")
     ax = o["axis"]
     if o["kind"] == "ell":
-        qx, qy, qz = o["q"]
-        if qx == qy == qz:
-            return fdtdx.Sphere(radius=qx * D / 4, **kw)
-        return fdtdx.Sphere(radius=qx * D / 4, radius_y=qy * D / 4, radius_z=qz * D / 4, **kw)      # radius_x falls back to radius
+        per_axis = {f"radius_{n}": g * D / 4 for n, g in zip("xyz", o["given"]) if g}           # omitted ones fall back to radius
+        return fdtdx.Sphere(radius=o["rad"] * D / 4, **per_axis, **kw)
     ext = {}
     if fam in ("U", "R"):
         pg, pr = [None] * 3, [None] * 3
@@ -217,7 +241,8 @@ def _record(rid, fam, o, placed):
     except ValueError:
         mshape = [-1, -1, -1]                      # judged by the trace spec ("shape" clause)
         mask = [0] * (box[0] * box[1] * box[2])
-    rec = {"id": rid, "fam": fam, "kind": o["kind"], "q": [int(x) for x in o["q"]], "axis": int(o["axis"]) + 1,
+    rec = {"id": rid, "fam": fam, "kind": o["kind"], "rad": int(o["rad"] if o["kind"] == "ell" else o["q"][0]),
+           "given": [int(g) for g in (o["given"] if o["kind"] == "ell" else (0, 0, 0))], "axis": int(o["axis"]) + 1,
            "poly": [[int(h), int(v)] for h, v in o["poly"]], "edges": edges, "mshape": mshape, "mask": mask,
            "slice": [[int(lo), int(hi)] for lo, hi in sl]}
     rec.update(_stats(rec))
@@ -227,6 +252,7 @@ def _record(rid, fam, o, placed):
 def _stats(rec):
     """Evidence only (not part of the verdict): marked cells, centres exactly on an ellipsoid/cylinder surface."""
     n = [len(e) - 1 for e in rec["edges"]]
+    q = [g or rec["rad"] for g in rec["given"]]
     marked = sum(rec["mask"])
     on = on_marked = 0
     if rec["kind"] in ("ell", "cyl"):
@@ -240,7 +266,7 @@ def _stats(rec):
                     for a in axes:
                         e = rec["edges"][a]
                         d4 = 2 * (e[idx[a]] + e[idx[a] + 1]) - 2 * (e[0] + e[-1])
-                        s += Fraction(d4, rec["q"][a]) ** 2
+                        s += Fraction(d4, q[a]) ** 2
                     if s == 1:
                         on += 1
                         on_marked += rec["mask"][x]
@@ -331,6 +357,8 @@ def run(ctx):
     fams = sorted({r["fam"] for r in recs})
     ctx.extra_cov["records_by_family_and_kind"] = {f: {k: sum(1 for r in recs if r["fam"] == f and r["kind"] == k) for k in ("ell", "cyl", "poly")} for f in fams}
     ctx.extra_cov["masks_neither_empty_nor_full"] = ctx.nontrivial
+    ctx.extra_cov["sphere_records_by_given_per_axis_radii_xyz"] = {"".join("xyz"[a] if r["given"][a] else "-" for a in range(3)): sum(
+        1 for r2 in recs if r2["kind"] == "ell" and [bool(g) for g in r2["given"]] == [bool(g) for g in r["given"]]) for r in recs if r["kind"] == "ell"}
     ctx.extra_cov["cells_judged"] = sum(r["n_cells"] for r in recs)
     ctx.extra_cov["centres_exactly_on_an_ellipsoid_or_cylinder_surface"] = sum(r["n_on_surface"] for r in recs)
     ctx.extra_cov["of_which_marked_by_fdtdx"] = sum(r["n_on_surface_marked"] for r in recs)
